@@ -114,10 +114,10 @@ def check(run):
             specs.append(EnumSpec(name="D%d" % len(specs), variants=variants, serialize_all=style, prefix=pref, derives=list(A_DERIVES)))
     units = []
     for s in specs:
-        units.append(shards.Unit("u_" + s.name.lower() + "_a", glue(s), meta={"enum_src": s.render()}, sig="A," + s.signature()))
+        units.append(shards.Unit("u_" + s.name.lower() + "_a", glue(s), meta={"enum_src": s.render(), "bare_src": s.render_bare()}, sig="A," + s.signature()))
         b = copy.deepcopy(s)
         b.derives = list(B_DERIVES)
-        units.append(shards.Unit("u_" + s.name.lower() + "_b", glue(b), meta={"enum_src": b.render()}, sig="B," + s.signature()))
+        units.append(shards.Unit("u_" + s.name.lower() + "_b", glue(b), meta={"enum_src": b.render(), "bare_src": b.render_bare()}, sig="B," + s.signature()))
     run.rule = RULE
     samples = standard_flow(run, units, deps["std"], vmon, profiles=("debug",), tag="c03")
     pick_samples(run, samples, {u.name: u for u in units})
